@@ -1,5 +1,7 @@
 SPECIFICATION TraceSpec
-CONSTANT Apps = {"A", "B", "C", "D", "E"}
+CONSTANTS
+  Apps = {"A", "B", "C", "D", "E"}
+  MaxMarked = 2
 CONSTRAINT Consumed
 POSTCONDITION AllConsumed
 CHECK_DEADLOCK FALSE
